@@ -213,7 +213,9 @@ inline Stats &stats() { static Stats s; return s; }
 
 // current case, for sanitizer deaths: a lazily evaluated serializer
 inline std::function<std::string()> &cur_case() { static std::function<std::string()> f; return f; }
+inline bool &alive() { static bool a = true; return a; }
 inline void on_death() {
+  if (!alive()) return;
   Stats &s = stats();
   if (!s.out_path.empty() && cur_case()) {
     std::string c = cur_case()();
@@ -242,6 +244,7 @@ inline Args parse_args(int argc, char **argv) {
   stats().out_path = a.out;
   if (!a.known.empty()) stats().load_known(a.known.c_str());
   __sanitizer_set_death_callback(on_death);
+  atexit([] { alive() = false; });
   return a;
 }
 inline std::string read_file(const std::string &p) {
@@ -256,5 +259,8 @@ inline bool set_provider(int p) { return jwt_set_crypto_ops(prov_name(p)) == 0; 
 
 }  // namespace v
 
+#ifndef VLIB_NO_ASAN_DEFAULTS
+extern "C" const char *__asan_default_options() { return "detect_leaks=0:allocator_may_return_null=1:exitcode=99"; }
+#endif
 // The statically linked library and the harness get their time() from here (-Wl,--wrap=time).
 extern "C" time_t __wrap_time(time_t *t) { time_t n = v::now_ref(); if (t) *t = n; return n; }
